@@ -188,6 +188,10 @@ pub fn nice_param(rng: &mut Rng, spec: &ModelSpec, k: usize, xmax: f64) -> f64 {
         (Family::DampCos | Family::DampSin | Family::PhaseCos, 1) => rng.range(2.0, 9.0) / xmax,
         (Family::PhaseCos, _) => rng.range(-2.5, 2.5),
         (Family::Rational, _) => rng.range(0.3, 5.0) / xmax,
+        (Family::Cubic4, l) => rng.range(-1.5, 1.5) / xmax.powi(l as i32),
+        (Family::ExpQuad5, 0) => rng.range(-0.5, 0.5),
+        (Family::ExpQuad5, 1) => rng.range(0.2, 3.0) / xmax,
+        (Family::ExpQuad5, l) => rng.range(-1.5, 1.5) / xmax.powi(l as i32 - 2),
         _ => rng.range(0.5, 2.0),
     }
 }
